@@ -796,3 +796,13 @@ func externalReplay(bin, property, check string, v *Violation, work string) stri
 	}
 	return strings.TrimSpace(s[i+len("  why: "):])
 }
+
+// CountCases walks the enumeration of one shard without executing anything and returns the
+// number of cases per leg (used to size the tiers).
+func CountCases(ck *Check, tier string, shard, n int) map[string]uint64 {
+	out := map[string]uint64{}
+	em := &Emitter{shard: uint64(shard), n: uint64(n)}
+	em.do = func(c *Case) { out[c.Leg]++ }
+	ck.Enum(tier, em)
+	return out
+}
